@@ -23,12 +23,18 @@ def main():
         else:
             pats.append(args[i]); i += 1
     files = sorted(glob.glob(os.path.join(VERIF, "mutants", "*.patch")))
-    if pats:
-        files = [f for f in files if any(fnmatch.fnmatch(os.path.basename(f), "*" + p + "*") for p in pats)]
+    # seeded changes: seeded/<id>/patch.diff; pattern "seeded:<id>[@Cxx]" runs check Cxx (default: the id's property)
+    jobs = []
+    for p in list(pats):
+        if p.startswith("seeded:"):
+            pats.remove(p)
+            sid, _, prop = p[len("seeded:"):].partition("@")
+            jobs.append((os.path.join(VERIF, "seeded", sid, "patch.diff"), prop or sid.split("_")[0], f"seeded/{sid}@{prop or sid.split('_')[0]}"))
+    if pats or not jobs:
+        sel = [f for f in files if not pats or any(fnmatch.fnmatch(os.path.basename(f), "*" + p + "*") for p in pats)]
+        jobs += [(f, os.path.basename(f).split("_")[0], os.path.basename(f)) for f in sel]
     results = []
-    for f in files:
-        base = os.path.basename(f)
-        prop = base.split("_")[0]
+    for f, prop, base in jobs:
         tmp = tempfile.mkdtemp(prefix="verif_mut_")
         try:
             shutil.copytree("/repo/src", os.path.join(tmp, "src"), ignore=shutil.ignore_patterns("__pycache__"))
